@@ -8,6 +8,7 @@
   block / length-field sizes of `h`.  Both are established for the ten objects of the library in Proofs.C01.
 -/
 import Proofs.Lemmas.StreamingAlgs
+import Proofs.Lemmas.StreamingBitlen
 namespace Proofs.C14
 open Model Proofs.Lemmas.Parse Proofs.Lemmas.Compose Proofs.Lemmas.Streaming Proofs.Lemmas.EndToEnd
 
@@ -63,6 +64,69 @@ theorem update_pieces_all (alg : Model.Alg) (pieces : List (List Spec.Byte))
   · have := (bitcnt_after_pieces R F pieces hal).1
     rw [this]
 
+/-! ### pieces given with their bit length (readinto-style buffers), re-initialisation -/
+
+/-- the object after `initstate(); update(b1,bitlen=L1); …; update(bk,bitlen=Lk)`: every piece is a buffer and the number
+    of its bits that count -/
+def feedL (c : HashCore) (pieces : List (List Spec.Byte × Nat)) : HashObj :=
+  pieces.foldl (fun o P => (c.update o (toNatBytes P.1) (some P.2) false).1) c.initstate
+
+/-- what a buffer given with L bits (whole bytes) contributes to the message: its first L/8 bytes -/
+def cut (P : List Spec.Byte × Nat) : List Spec.Byte := P.1.take (P.2 / 8)
+
+/-- **feed_bitlen**: feeding buffers with explicit bit lengths (each a whole number of blocks and at most the buffer:
+    L = 0 on a NON-EMPTY buffer and L = 8n on a buffer longer than n bytes included) leaves the object exactly where
+    feeding the cut pieces without bit lengths leaves it -/
+theorem feed_bitlen {σ : Type} {c : HashCore} {h : Spec.MDHash σ} {w B bl ll : Nat} {bigend : Bool}
+    (F : Framing c h w B bl ll bigend) (pieces : List (List Spec.Byte × Nat))
+    (hal : ∀ P ∈ pieces, P.2 ≤ 8 * P.1.length ∧ P.2 % (8 * bl) = 0) :
+    feedL c pieces = feed c (pieces.map cut) := by
+  have hB : c.padder.blocksize = 8 * bl := by rw [F.hp]; exact F.hB
+  unfold feedL feed
+  generalize c.initstate = o
+  induction pieces generalizing o with
+  | nil => rfl
+  | cons P rest ih =>
+    have hP := hal P (List.mem_cons_self)
+    simp only [List.foldl_cons, List.map_cons]
+    rw [Proofs.Lemmas.StreamingBitlen.update_bitlen_nonfinal c bl hB F.hbl o (toNatBytes P.1) P.2
+      (by rw [toNatBytes_length]; exact hP.1) hP.2]
+    have e : (toNatBytes P.1).take (P.2 / 8) = toNatBytes (cut P) := by
+      simp only [toNatBytes, cut, List.map_take]
+    rw [e]
+    exact ih (fun Q hQ => hal Q (List.mem_cons_of_mem _ hQ)) _
+
+/-- **update_pieces_bitlen**: buffers given with their bit lengths (whole blocks; 0 bits of a non-empty buffer, 8n bits
+    of a longer buffer) followed by a final buffer with an optional bit length (any 0 ≤ L ≤ 8|q|) give the one-shot
+    result on the concatenation of the first L bits of every piece, and the bit counter before the final piece is the
+    sum of the bit lengths given -/
+theorem update_pieces_bitlen {σ : Type} {c : HashCore} {h : Spec.MDHash σ} {emb : σ → List Bits} (R : Refines c h emb)
+    {w B bl ll : Nat} {bigend : Bool} (F : Framing c h w B bl ll bigend)
+    (pieces : List (List Spec.Byte × Nat)) (hal : ∀ P ∈ pieces, P.2 ≤ 8 * P.1.length ∧ P.2 % (8 * bl) = 0)
+    (q : List Spec.Byte) (kw : Option Nat) (hkw : ∀ l, kw = some l → l ≤ 8 * q.length) :
+    (c.update (feedL c pieces) (toNatBytes q) kw true).2
+      = c.hash (toNatBytes ((pieces.map cut).flatten ++ q)) (kw.map (8 * (pieces.map cut).flatten.length + ·)) ∧
+    (feedL c pieces).pad.bitcnt = 8 * (pieces.map cut).flatten.length := by
+  have hcut : ∀ P ∈ pieces.map cut, P.length % bl = 0 := by
+    intro P hP
+    obtain ⟨Q, hQ, rfl⟩ := List.mem_map.mp hP
+    obtain ⟨h1, h2⟩ := hal Q hQ
+    obtain ⟨j, hj⟩ := Nat.dvd_of_mod_eq_zero h2
+    have : Q.2 / 8 = bl * j := by rw [hj, Nat.mul_assoc, Nat.mul_div_cancel_left _ (by decide : 0 < 8)]
+    simp only [cut, List.length_take, this]
+    rw [Nat.min_eq_left (by omega)]
+    exact Nat.mul_mod_right _ _
+  rw [feed_bitlen F pieces hal]
+  exact ⟨Proofs.Lemmas.Streaming.update_pieces R F _ hcut q kw hkw, by rw [(bitcnt_after_pieces R F _ hcut).1]⟩
+
+/-- **initstate_forgets**: `initstate()` does not look at the object it is called on — after an abandoned stream (blocks
+    fed, never finalised), a finished digest or a refused step the object is the one a new object starts as: chaining
+    value = IV, bit counter 0, no padding added; so `update_pieces` / `update_pieces_bitlen` (stated from `c.initstate`)
+    hold after `initstate()` on an object with ANY history.  (In the model this is how `initstate` is written —
+    `self.H = …; self.padmethod = XXpadding(…)` — and the `… | init | …` lines of the stream tie it to the code.) -/
+theorem initstate_forgets (c : HashCore) :
+    c.initstate.pad = { padflag := false, bitcnt := 0, padcnt := 0 } ∧ c.initstate.H = c.iv := ⟨rfl, rfl⟩
+
 /-! non-vacuity: block-aligned cuts exist with empty and multi-block pieces -/
 example : ∃ (pieces : List (List Spec.Byte)), (∀ P ∈ pieces, P.length % 64 = 0) ∧ pieces.length = 3 ∧
     pieces.flatten.length = 192 :=
@@ -70,5 +134,13 @@ example : ∃ (pieces : List (List Spec.Byte)), (∀ P ∈ pieces, P.length % 64
    by intro P hP; simp only [List.mem_cons, List.not_mem_nil, or_false] at hP
       rcases hP with rfl | rfl | rfl <;> simp only [List.length_replicate, List.length_nil],
    rfl, by simp only [List.flatten_cons, List.flatten_nil, List.length_append, List.length_replicate, List.length_nil]⟩
+
+/-- bit lengths as a reused 64-byte buffer gives them: a full read, an empty read (0 bits of a non-empty buffer) -/
+example : ∃ (pieces : List (List Spec.Byte × Nat)), (∀ P ∈ pieces, P.2 ≤ 8 * P.1.length ∧ P.2 % (8 * 64) = 0) ∧
+    (pieces.map cut).flatten.length = 64 ∧ (pieces.map (·.1.length)).sum = 192 :=
+  ⟨[(List.replicate 64 7#8, 512), (List.replicate 64 7#8, 0), (List.replicate 64 7#8, 0)],
+   by intro P hP; simp only [List.mem_cons, List.not_mem_nil, or_false] at hP
+      rcases hP with rfl | rfl | rfl <;> simp only [List.length_replicate] <;> decide,
+   by decide, by decide⟩
 
 end Proofs.C14
